@@ -381,7 +381,10 @@ def check_consumer(prog: Program, res: Result) -> None:
         # lists appended with the image in the inner loop
         img_lists = set()
         for c in astq.method_calls(inner, "append"):
-            if isinstance(c.func.value, ast.Name) and c.args and item in astq.names_in(c.args[0]) and "image" in norm(c.args[0]):
+            # a list that receives (a part of) every frame read: appended unconditionally with a value taken from the item
+            cond = [a_ for a_ in __import__('sa.core.program', fromlist=['ancestors']).ancestors(c) if isinstance(a_, ast.If) and astq.in_body_of(a_, inner, "body")
+                    and astq.in_body_of(c, a_, "body") and astq.is_none_test(a_.test) is None]
+            if isinstance(c.func.value, ast.Name) and c.args and item in astq.names_in(c.args[0]) and not cond:
                 img_lists.add(c.func.value.id)
         # Once the batch loop is left, the batch is processed unless the list of images is EMPTY: with the edges taken
         # only for an empty image list removed (false edge of `if imgs`, true edge of `if not imgs` / `len(imgs) == 0`),
